@@ -44,6 +44,8 @@ class Sched:
         self.active = False
         self.fired_at = None
         self.trace = []
+        self.more = []
+        self.fired_more = []
 
     def step(self, what):
         if self.active:
@@ -57,6 +59,16 @@ class Sched:
                 f()
             finally:
                 self.active = False
+        # further intruders (three-operation schedules): each (at, fn) fires once, after the first one
+        for item in list(self.more):
+            if self.count == item[0]:
+                self.more.remove(item)
+                self.active = True
+                self.fired_more.append((self.count, what))
+                try:
+                    item[1]()
+                finally:
+                    self.active = False
 
 
 # ------------------------------------------------------------------------------------------------ world
